@@ -140,7 +140,11 @@ class MCA:
             return v
         u = np.finfo(v.dtype).eps
         with np.errstate(all="ignore"):
-            d = self.rng.uniform(-2.0, 2.0, size=v.shape)
+            # |d| in [1, 2]: never (nearly) zero -- a perturbation that rounds back to the
+            # same float32 in all runs would claim a zero error bound for an operation whose
+            # libm / SIMD implementations differ by one ulp
+            d = self.rng.uniform(1.0, 2.0, size=v.shape) * \
+                self.rng.choice(np.array([-1.0, 1.0]), size=v.shape)
             out = v * (1.0 + u * d)
             if extra_abs is not None:
                 ea = np.asarray(extra_abs)
@@ -572,6 +576,16 @@ def reference(spec: dict[str, Any], vset: int, n_mca: int = 4, pure_numpy: bool 
     # warning and 0 in NumPy): such an input set is unusable, like a fragile one.  The
     # generator screens value sets 0 and 1; redrawn sets are screened here.
     fragile = False
+    discrete = {nd["id"] for nd in spec["nodes"] if nd["op"] in ("all", "any", "isnan")}
+    zero_tested: set[int] = set()
+    for nd in spec["nodes"]:
+        if nd["op"] in ("all", "any", "logical_not", "logical_and", "logical_or"):
+            zero_tested.update(a for a in nd["args"] if is_ref(a))
+        elif nd["op"] == "where" and nd["args"] and is_ref(nd["args"][0]):
+            zero_tested.add(nd["args"][0])
+        elif nd["op"] == "astype" and str(nd.get("params", {}).get("dtype")) == "bool":
+            zero_tested.update(a for a in nd["args"] if is_ref(a))
+    dev: dict[int, Any] = {}
     for nd in spec["nodes"]:
         if nd["op"] in ("floordiv", "mod") and len(nd["args"]) == 2:
             dv = np.asarray(plain.arg(nd["args"][1]))
@@ -587,7 +601,8 @@ def reference(spec: dict[str, Any], vset: int, n_mca: int = 4, pure_numpy: bool 
             if isinstance(v, dict):
                 continue
             va, pa = np.asarray(v), np.asarray(pv)
-            if va.dtype.kind in "biu":
+            # (all / any / isnan are truth values whatever dtype they are declared with)
+            if va.dtype.kind in "biu" or nid in discrete:
                 if va.shape != pa.shape or not np.array_equal(va, pa):
                     fragile = True
             else:
@@ -595,12 +610,24 @@ def reference(spec: dict[str, Any], vset: int, n_mca: int = 4, pure_numpy: bool 
                     if not np.array_equal(np.isnan(va), np.isnan(pa)) or \
                             not np.array_equal(np.isinf(va), np.isinf(pa)):
                         fragile = True
+                    if nid in zero_tested and va.shape == pa.shape and va.dtype.kind in "fc":
+                        dv_ = np.abs(va.astype(np.complex128) - pa.astype(np.complex128))
+                        dev[nid] = np.maximum(dev.get(nid, 0.0), np.where(np.isfinite(dv_),
+                                                                        dv_, 0.0))
         for k, v in sh.outputs().items():
             if v.dtype.kind in "fc" and v.shape == ref[k].shape:
                 with np.errstate(all="ignore"):
                     d = np.abs(v.astype(np.complex128) - ref[k].astype(np.complex128))
                     d = np.where(np.isfinite(d), d, 0.0)
                 spread[k] = np.maximum(spread[k], d)
+    # an inexact value that an operation tests for being ZERO (all / any / logical ops / the
+    # condition of where): sampling never produces an exact zero, but another evaluation order
+    # can -- unusable if some element lies within its own error bound of zero
+    for nid, dv_ in dev.items():
+        pa = np.abs(np.asarray(plain.vals[nid]).astype(np.complex128))
+        with np.errstate(all="ignore"):
+            if np.any((dv_ > 0) & (pa <= 8.0 * dv_)):
+                fragile = True
     return ref, spread, fragile, plain
 
 
